@@ -141,3 +141,6 @@ func Put(ts []*Task) {
 	defer mu.Unlock()
 	queue = append(queue, ts...)
 }
+
+// Run executes a task that was taken out of the queue (TakeAll) on the calling goroutine.
+func (t *Task) Run() { t.f() }
